@@ -140,7 +140,7 @@ func genScenario(t *rapid.T, s *rt.Spec, d domain) *rt.Scenario {
 			if prob(t, "goexit", d.goexit) {
 				o.K = rt.OGoexit
 			} else if prob(t, "panic", d.panics) {
-				o.K, o.PV = rt.OPanic, uniform(t, "pv", 7)
+				o.K, o.PV = rt.OPanic, uniform(t, "pv", 9)
 			} else {
 				o.K, o.EV = rt.OErr, []int{0, 0, 0, 0, 1, 2, 3, 3}[uniform(t, "ev", 8)]
 			}
@@ -153,7 +153,7 @@ func genScenario(t *rapid.T, s *rt.Spec, d domain) *rt.Scenario {
 			switch {
 			case faulty && prob(t, "predpanic", d.predPanic):
 				scn.Pred[u] = rt.PPanic
-				scn.Out[u].PV = uniform(t, "pv", 7)
+				scn.Out[u].PV = uniform(t, "pv", 9)
 			case prob(t, "predfalse", d.predFalse):
 				scn.Pred[u] = rt.PFalse
 			}
